@@ -103,6 +103,8 @@ class RSock:
             return b'Exceeded'
         if k == 2:
             return b'garbage!'
+        if k == 4:
+            raise OSError(errno.EHOSTUNREACH, 'No route to host')      # the pending non-blocking connect failed: reported by recv()
         raise ConnectionResetError(104, 'reset')
 
     def shutdown(self, how):
@@ -240,7 +242,7 @@ def _rate_loops():
 
 def sock_pool(n):
     """solver variables for n sockets: connect_ex outcome, readable / exceptional at the next select, what recv returns"""
-    return [{'code': zx.fresh_int('code%d' % i, 0, 3), 'kind': zx.fresh_int('kind%d' % i, 0, 3), 'ready': zx.fresh_bool('ready%d' % i), 'exc': zx.fresh_bool('exc%d' % i)}
+    return [{'code': zx.fresh_int('code%d' % i, 0, 3), 'kind': zx.fresh_int('kind%d' % i, 0, 4), 'ready': zx.fresh_bool('ready%d' % i), 'exc': zx.fresh_bool('exc%d' % i)}
             for i in range(n)]
 
 
